@@ -393,8 +393,18 @@ def _histories(tier):
 
 
 def enum_big_constraints(tier, seed):
-    from vf.props import c17
-    return [{"model": c["models"][0], "lookups": [], "source": "constructors"} for c in c17.enum_big_constraints(tier, seed)]
+    from vf.props import c17, c18
+    out = [{"model": c["models"][0], "lookups": [], "source": "constructors"} for c in c17.enum_big_constraints(tier, seed)]
+    # C18's caterpillar family, four constraints per flat model (the listings are what C03 is about)
+    chains = [c["ast"] for c in c18.enum_chains(tier, seed)]
+    if tier != "thorough":
+        chains = chains[::3]
+    names = ["A", "B", "C", "D", "E", "F", "G", "H"]
+    for i in range(0, len(chains), 4):
+        root = build.feat("Root", [build.rel(0, 1, [build.feat(x)]) for x in names])
+        out.append({"model": {"root": root, "ctcs": [{"name": f"K{j}", "ast": e} for j, e in enumerate(chains[i:i + 4])]},
+                    "lookups": [], "source": "constructors"})
+    return out
 
 
 SUBS = [
